@@ -36,6 +36,17 @@ def format (buf : Bytes) (i : ID) (urn : Bool) : Bytes :=
     ++ padHex 4 (Gen.uu_field3 i.hi i.lo).toNat ++ [45]
     ++ padHex 12 (Gen.uu_field4 i.hi i.lo).toNat
 
+/-- `f & FormatURN != 0`, `r & RuleDisableURN != 0`, `r & RuleDisableUpperCaseDigits != 0` -/
+def isURN (f : Nat) : Bool := f &&& Gen.uu_FormatURN != 0
+def ruleDisableURN (r : Nat) : Bool := r &&& Gen.uu_RuleDisableURN != 0
+def ruleDisableUpper (r : Nat) : Bool := r &&& Gen.uu_RuleDisableUpperCaseDigits != 0
+
+/-- `formatByVerb` -/
+def flagsByVerb (verb : Nat) : Nat :=
+  match Gen.uu_verbs.find? (fun e => e.1 == verb) with
+  | some e => e.2.getD 0
+  | none => Gen.uu_verbDefault.getD 0
+
 /-- `ID.URN()` -/
 def ID.urn (i : ID) : Bytes := format Gen.uu_URNPrefix i false
 
